@@ -21,8 +21,13 @@ DCS = DC + 'DefaultCacheState::<K, V>::'
 CM = 'datafusion_execution::cache::cache_manager::'
 
 
-def explore(facts, rec, depth=0, prefix=DC, **kw):
-    return run_traces(facts, rec, C16.args_for(rec), hook=lock_hook, inline_depth=depth, inline_only=(prefix,), time_budget=40, budget=600000, **kw)
+def explore(facts, rec, depth=0, prefix=DC, protocol=(), **kw):
+    # private helpers of the module are followed (an extracted `release_entry` is part of its caller); the protocol functions themselves are
+    # call events (put -> evict_entries is a rule, not a body to merge)
+    def helper(name):
+        n = name[1:] if name.startswith('<') else name
+        return n.startswith(prefix) and name not in protocol and '::is_valid_for' not in name
+    return run_traces(facts, rec, C16.args_for(rec), hook=lock_hook, inline_depth=depth, inline_only=None, inline_pred=helper, time_budget=40, budget=600000, **kw)
 
 
 def size_calls(o):
@@ -78,7 +83,7 @@ def check_accounting(ctx, facts, prefix, names, rule='accounting-balance'):
             bad += 1
             continue
         ctx.analysed_fns.add(d)
-        outs = explore(facts, rec, prefix=prefix)
+        outs = explore(facts, rec, prefix=prefix, protocol=tuple(names.values()))
         problems = set()
         nrel = 0
         for o in outs:
@@ -158,7 +163,7 @@ def check_valid_for(ctx, facts, d, rule='validity-guard'):
         ctx.lost(rule, d)
         return 1
     ctx.analysed_fns.add(d)
-    outs = explore(facts, rec)
+    outs = explore(facts, rec, prefix=d.rsplit('::', 2)[0] + '::')
     n_true = 0
     problems = set()
     for o in outs:
@@ -183,6 +188,11 @@ def check_valid_for(ctx, facts, d, rule='validity-guard'):
     return 0
 
 
+def is_plumbing(name):
+    """Option/Result combinators and the `?` machinery move the wrapper around the cached entry; they do not read the entry"""
+    return name.startswith(('core::option::Option::', 'core::result::Result::')) or 'core::ops::try_trait::' in name
+
+
 def check_consumer(ctx, facts, d, rule='use-behind-validity'):
     rec = facts.fn(d)
     if rec is None:
@@ -191,7 +201,7 @@ def check_consumer(ctx, facts, d, rule='use-behind-validity'):
     ctx.analysed_fns.add(d)
     args = [MR(-1, 0, (), sym('st')), MR(-1, 1, (), sym('cx'))][:rec['argc']]
     try:
-        outs = run_traces(facts, rec, args, hook=lock_hook, inline_depth=0, time_budget=60, budget=1500000, loop_visits=1)
+        outs = run_traces(facts, rec, args, hook=lock_hook, inline_depth=0, time_budget=60, budget=1500000, loop_visits=1, try_tags=True)
     except Undecidable as e:
         ctx.undecided(rule, d, str(e))
         return 1
@@ -199,13 +209,19 @@ def check_consumer(ctx, facts, d, rule='use-behind-validity'):
     uses = 0
     for o in outs:
         validated = False
-        ctags = set(['cached'])
+        # the cached payload is whatever is_valid_for is asked about on this path (its receiver), under any local name
+        ctags = set()
         for e in o.events:
-            if e[0] == 'let' and e[1] == 'cached' and tag_of(e[2]):
-                ctags.add(tag_of(e[2]))
+            if e[0] == 'callargs' and e[1].endswith('::is_valid_for') and e[2]:
+                t = tag_of(e[2][0])
+                if t:
+                    ctags.add(t)
+        if not ctags:
+            continue
+        for e in o.events:
             if e[0] == 'branch' and e[1] and 'is_valid_for' in e[1]:
                 validated = (e[2] == 1)
-            if e[0] == 'callargs' and not e[1].endswith('::is_valid_for'):
+            if e[0] == 'callargs' and not e[1].endswith('::is_valid_for') and not is_plumbing(e[1]):
                 for a in e[2]:
                     t = tag_of(a) or ''
                     if any(t == c or t.startswith(c + '.') for c in ctags):
@@ -235,12 +251,22 @@ def run(ctx):
         if rec.get('coroutine'):
             continue
         try:
-            outs = explore(f, rec)
+            outs = explore(f, rec, protocol=tuple(names.values()))
         except Undecidable:
             continue
         if any(md(f, o) for o in outs):
             writers.add(d)
     extra = writers - set(names.values())
+    # a private helper all of whose callers are protocol functions (or such helpers) is part of the protocol: its writes are accounted
+    # for in its callers' balance above, where it is followed
+    changed = True
+    while changed:
+        changed = False
+        for d in sorted(extra):
+            cs = set(f.callers_of(d))
+            if cs and all(c in names.values() or (c in writers and c not in extra) for c in cs):
+                extra.discard(d)
+                changed = True
     if extra:
         ctx.fail('who-may-write', 'memory_used', DC, 'memory_used is written outside put/remove/evict_entries/clear: %s' % sorted(extra), key='who-may-write|memory_used')
     else:
@@ -279,7 +305,10 @@ def run(ctx):
     consumers = set()
     for k in f.callers:
         if k.endswith('::is_valid_for') and k.startswith(CM):
-            consumers |= set(f.callers_of(k))
+            for c in f.callers_of(k):
+                # a predicate closure (`.filter(|c| c.is_valid_for(meta))`) is analysed as part of the function it is written in
+                r = f.fn(c)
+                consumers.add(r.get('root') or c if r is not None and r['k'] == 'closure' and not r.get('coroutine') else c)
     for d in sorted(consumers):
         check_consumer(ctx, f, d)
     ctx.floor('use-behind-validity', 'consumers of is_valid_for', len(consumers), 2)
